@@ -288,6 +288,24 @@ func init() {
 						return producedOnly("F", h.GetStats())
 					}
 					return frameOut("F", frame, nil)
+				case fs[0] == "lagframes" && len(fs) == 1:
+					// a stats listener one report behind: the first report must not change after it was handed on
+					for i := 0; i < 4; i++ {
+						crossbar.VerifStatusAdd(h, crossbar.VerifStatusSpec{Topic: "lag-" + strconv.Itoa(i), UserAgent: "listener-scenario-" + strconv.Itoa(i),
+							CanRead: true, CanWrite: i%2 == 0, Scopes: []string{"read", "write"}, RemoteAddr: "10.0.0." + strconv.Itoa(i)})
+					}
+					// between the two reports one connection leaves (the next report is shorter: it fits the same buffer)
+					at, after, second, ok := crossbar.VerifStatusLagFrames(h, func() { crossbar.VerifStatusRemoveTopic(h, "lag-0") }, 3500*time.Millisecond)
+					if !ok {
+						return "lag no-frames"
+					}
+					if string(at) != string(after) {
+						return "lag first-report-changed-after-handoff valid_json_now=" + strconv.FormatBool(json.Valid(after))
+					}
+					if !json.Valid(at) || !json.Valid(second) || string(at) == string(second) {
+						return "lag bad-reports"
+					}
+					return "lag ok"
 				case fs[0] == "rest" && len(fs) == 1:
 					code, body, panicked := access.VerifStatusBody(h)
 					// the float64 statistics behind the float32 projection (they do not depend on time)
